@@ -290,6 +290,75 @@ func checkC03(c *Ctx) {
 	borrowRule(c, "C01", "C01.prec", "C03.prec")
 	borrowRule(c, "C01", "C01.assoc", "C03.assoc")
 
+	// ---- C03.lineends: LF, CR and CRLF are the same line end: wherever a scanner of the front end compares a character
+	// with LF it also compares that character with CR (a loop that only stops at LF reads a CR-terminated line on)
+	nLE := 0
+	for _, rel := range []string{"pkg/syntax", "pkg/syntax/zh"} {
+		for _, g := range u.srcFuncs(rel) {
+			withLF, withCR := map[ssa.Value]token.Pos{}, map[ssa.Value]bool{}
+			for _, in := range instrsOf(g) {
+				bo, ok := in.(*ssa.BinOp)
+				if !ok || (bo.Op != token.EQL && bo.Op != token.NEQ) {
+					continue
+				}
+				for _, pr := range [][2]ssa.Value{{bo.X, bo.Y}, {bo.Y, bo.X}} {
+					k, isK := pr[1].(*ssa.Const)
+					if !isK || k.Value == nil || k.Value.Kind() != constant.Int {
+						continue
+					}
+					if b, isB := pr[0].Type().Underlying().(*types.Basic); !isB || b.Kind() != types.Int32 {
+						continue
+					}
+					switch k.Int64() {
+					case 10:
+						withLF[pr[0]] = bo.Pos()
+					case 13:
+						withCR[pr[0]] = true
+					}
+				}
+			}
+			for v, p := range withLF {
+				nLE++
+				okCR := withCR[v]
+				// the same character held in another SSA value (a phi of it, or the value it is a phi of)
+				for w := range withCR {
+					if flowsFrom(v, func(x ssa.Value) bool { return x == w }) || flowsFrom(w, func(x ssa.Value) bool { return x == v }) {
+						okCR = true
+					}
+				}
+				if !okCR {
+					R.viol("C03.lineends", u.fname(g)+":LF-without-CR", u.pos(p), "a character is compared with LF but never with CR: a text with CR line ends is scanned past its line end (a single-line comment swallows the following lines), so the same program gives another tree than its LF spelling")
+				}
+			}
+		}
+	}
+	if nLE > 0 {
+		R.hold("C03.lineends", "front-end scanners", "", fmt.Sprintf("%d characters compared with LF are compared with CR as well", nLE))
+	}
+	// every item of the program's top-level list is looked at with a fresh statement-complete flag: in ParseProgram's
+	// consumer the flag is reset before the 导入 test (a set flag makes tryConsume refuse the next import line)
+	if g := u.ssaFunc("pkg/syntax/zh", "ParseProgram"); g != nil {
+		okFlag, nTC := true, 0
+		for _, h := range family(g, 0) {
+			unsets := u.callsNamed(h, "pkg/syntax/zh.ParserZH.unsetStmtCompleteFlag")
+			for _, tc := range u.callsNamed(h, "pkg/syntax/zh.ParserZH.tryConsume") {
+				nTC++
+				dom := false
+				for _, us := range unsets {
+					if ui, isI := us.(ssa.Instruction); isI {
+						if ti, isT := tc.(ssa.Instruction); isT && dominatesInstr(ui, ti) {
+							dom = true
+						}
+					}
+				}
+				if !dom {
+					okFlag = false
+				}
+			}
+		}
+		R.check(okFlag && nTC >= 1, "C03.sections", "pkg/syntax/zh.ParseProgram:flag-reset-before-import-test", u.pos(g.Pos()), "the statement-complete flag is reset before every 导入 test", "the 导入 test of ParseProgram can run with the statement-complete flag still set from the previous line: a second 导入 line is not recognised and the program is rejected")
+	}
+
 	// ---- C03.spaces: optional spaces are layout only - the space predicate accepts every character of the table of
 	// spaces and nothing else (evaluated on the function body for each table entry and for representatives outside)
 	if fd, sp := u.funcDecl("pkg/syntax", "IsWhiteSpace"); fd != nil {
@@ -434,44 +503,64 @@ func checkC03(c *Ctx) {
 			"after-current-token":    {"TypeCommaSep", "TypePauseCommaSep", "TypeStmtQuoteL", "TypeArrayQuoteL", "TypeFuncCall", "TypeFuncDeclare"},
 			"before-following-token": {"TypeArrayQuoteR", "TypeStmtQuoteR"},
 		}
-		// the exception lists are the token-type list literals of the function, whatever they are called
-		var lists [][]int64
-		ast.Inspect(fd.Body, func(n ast.Node) bool {
-			if cl, ok := n.(*ast.CompositeLit); ok {
-				if _, isSlice := info.TypeOf(cl).Underlying().(*types.Slice); isSlice {
-					var got []int64
-					for _, el := range cl.Elts {
-						if v, ok := constInt(info, el); ok {
-							got = append(got, v)
-						}
-					}
-					if len(got) == len(cl.Elts) {
-						lists = append(lists, got)
-					}
+		// the decision is evaluated (constant propagation over the function body) for every token kind standing before the
+		// line break and for every token kind standing after it: the answer "no statement break" must be given exactly
+		// for the manual's two exception sets - whether the function spells them as lists, switches or a chain of tests
+		neutral := typeConsts["TypeIdentifier"]
+		decide := func(cur, peek int64) (bool, string) {
+			pe := newPE(u, info, fd)
+			pe.oracle = func(pe *PE, st *peState, call *ast.CallExpr, id string) (Val, bool) {
+				switch {
+				case strings.HasSuffix(id, "ParserZH.current"):
+					return Val{K: vStruct, F: map[string]Val{"Type": intVal(cur)}}, true
+				case strings.HasSuffix(id, "ParserZH.peek"):
+					return Val{K: vStruct, F: map[string]Val{"Type": intVal(peek)}}, true
 				}
+				return Val{}, false
 			}
-			return true
-		})
+			pe.selOracle = func(pe *PE, st *peState, sel *ast.SelectorExpr) (Val, bool) {
+				switch astFieldName(info, sel.Sel) {
+				case "StartLineIdxP2":
+					return intVal(7), true
+				case "EndLineIdxP1", "StartLineIdxP1":
+					return intVal(5), true
+				}
+				return Val{}, false
+			}
+			outs := pe.exec(newState(), fd.Body.List)
+			if pe.failed != "" || len(outs) != 1 || outs[0].Kind != "return" || len(outs[0].RetV) != 1 || outs[0].RetV[0].K != vBool {
+				return false, "not extractable " + pe.failed
+			}
+			return outs[0].RetV[0].B, ""
+		}
 		for name, ws := range want {
-			ok := false
-			for _, got := range lists {
-				same := len(got) == len(ws)
-				for _, w := range ws {
-					found := false
-					for _, g := range got {
-						if g == typeConsts[w] {
-							found = true
-						}
-					}
-					if !found {
-						same = false
-					}
+			wantSet := map[int64]bool{}
+			for _, w := range ws {
+				wantSet[typeConsts[w]] = true
+			}
+			bad := ""
+			for _, tn := range sortedKeys(typeConsts) {
+				tv := typeConsts[tn]
+				if tn == "TypeEOF" || !strings.HasPrefix(tn, "Type") {
+					continue
 				}
-				if same {
-					ok = true
+				var breaks bool
+				var why string
+				if name == "after-current-token" {
+					breaks, why = decide(tv, neutral)
+				} else {
+					breaks, why = decide(neutral, tv)
+				}
+				if why != "" {
+					bad = tn + ": " + why
+					break
+				}
+				if breaks == wantSet[tv] {
+					bad = fmt.Sprintf("%s: a line break there %s a statement, the manual says the opposite", tn, map[bool]string{true: "ends", false: "does not end"}[breaks])
+					break
 				}
 			}
-			R.check(ok, "C03.linebreak", "meetStmtLineBreak:"+name, u.pos(fd.Pos()), "equals the manual's set "+strings.Join(ws, " "), "line-continuation exception list differs from the manual")
+			R.check(bad == "", "C03.linebreak", "meetStmtLineBreak:"+name, u.pos(fd.Pos()), "equals the manual's set "+strings.Join(ws, " "), "line-continuation exception list differs from the manual ("+bad+")")
 		}
 		// "a line break separates the two tokens" = the following token starts on a later line than the one the
 		// current token ENDS on (a multi-line literal followed by more text on its last line is one statement)
